@@ -100,3 +100,14 @@ Example known_type_ex :
   known_type (EBin BAdd (EStr [97]) (EId 1 false false)) = PString /\
   eval Wgood [] (EBin BAdd (EStr [97]) (EId 1 false false)) = Some ([88], Val (VStr [])).
 Proof. split; vm_compute; reflexivity. Qed.
+
+From V Require Import C03.TreeProofs5.
+(* simplify_not_correct is about real rewrites: !(f(), NaN) => f(), true ; !!(a == b) keeps one == ; !(a === b) => a !== b *)
+Example simplify_not_ex :
+  maybe_simplify_not (EBin BComma (ECall (EId 1000 false false) [] 0 false) (ENum NaN))
+  = Some (EBin BComma (ECall (EId 1000 false false) [] 0 false) (EBool true)) /\
+  maybe_simplify_not (EUn UNot (EBin BLooseEq (EId 1 false false) (EId 2 false false)) false)
+  = Some (EBin BLooseEq (EId 1 false false) (EId 2 false false)) /\
+  eval Wgood [] (EUn UNot (EBin BComma (ECall (EId 1000 false false) [] 0 false) (ENum NaN)) false)
+  = Some ([99], Val (VBool true)).
+Proof. repeat split; vm_compute; reflexivity. Qed.
